@@ -100,6 +100,7 @@ def run(tier, seed, build):
     groups, meta = [], {}
     eid = [0]
     npre = [0]
+    nnum = [0]
 
     def ev(pd, r, label, tol=None):
         obs, ok = panelmat.observe(pd, r)
@@ -136,6 +137,13 @@ def run(tier, seed, build):
         if r["q"] == "k0" and pd["model"] in ("plate", "cpanel") and fr(pd["y1"]) == 0 and fr(pd["y2"]) == fr(pd["b"]):
             rn = dict(r, num=[pd["m"] + 3, pd["n"] + 3])
             ev(pd, rn, "numerically integrated kernel at the undeformed state", tol=34)
+            if nnum[0] < (2 if tier == "quick" else 12):
+                # unequal series orders with the smallest rule that is exact in each direction (an n-point rule integrates
+                # the quadratic integrand of degree 2 max(3, m-1) exactly from n = max(4, m) on): nx < n <= ny
+                nnum[0] += 1
+                px = dict(copy.deepcopy(pd), m=3, n=6)
+                ev(px, r, "analytic kernel, orders (3, 6)")
+                ev(px, dict(r, num=[4, 6]), "numerically integrated kernel, orders (3, 6), rule (4, 6)", tol=34)
             # the same pair with the laminate forced orthotropic (the flag must reach both kernel families)
             po = dict(copy.deepcopy(pd), ortho=True)
             ev(po, r, "analytic kernel, laminate forced orthotropic")
